@@ -18,6 +18,7 @@
 (*   S07a  the matched set is the as-built one (ExpectedAsBuilt)           *)
 (*   S12a  thresholds / sizes applied per segment before the merge         *)
 (*   S12b  top_hits `from` skipped per segment and again at every merge    *)
+(*   S12c  range buckets with equal keys collide in the merge               *)
 (*   S13a  on a cursor page the collector only sees documents after the    *)
 (*         cursor key                                                       *)
 (*   S30a  a composite histogram source over an i64 field yields no value  *)
@@ -85,6 +86,11 @@ Prone12a(a) ==
        \/ a.t = "rare"
        \/ a.t = "hist" /\ HistMdc(a) > 1
        \/ \E i \in DOMAIN a.subs : Prone12a(a.subs[i].a)
+RECURSIVE Prone12c(_)
+Prone12c(a) ==
+  IF IsLeaf(a) THEN FALSE
+  ELSE \/ a.t = "range" /\ \E i, j \in DOMAIN a.ranges : i # j /\ a.ranges[i].key = a.ranges[j].key
+       \/ \E i \in DOMAIN a.subs : Prone12c(a.subs[i].a)
 RECURSIVE Prone12b(_)
 Prone12b(a) ==
   IF IsLeaf(a) THEN a.t = "tophits" /\ a.from > 0 ELSE \E i \in DOMAIN a.subs : Prone12b(a.subs[i].a)
@@ -98,12 +104,13 @@ Cands(Mi, Mb, aggs) ==
       t0 == IF a30 = aggs THEN << [a |-> aggs, d |-> {}] >> ELSE << [a |-> aggs, d |-> {}], [a |-> a30, d |-> {"S30a"}] >>
       ts == IF ViewCeilSubs(aggs) = aggs THEN t0
             ELSE [i \in DOMAIN t0 |-> [a |-> ViewCeilSubs(t0[i].a), d |-> t0[i].d]] \o t0     \* what the code does first
-      pa == \E i \in DOMAIN aggs : Prone12a(aggs[i].a)
-      pb == \E i \in DOMAIN aggs : Prone12b(aggs[i].a)
+      prone == (IF \E i \in DOMAIN aggs : Prone12a(aggs[i].a) THEN {"S12a"} ELSE {})
+               \cup (IF \E i \in DOMAIN aggs : Prone12b(aggs[i].a) THEN {"S12b"} ELSE {})
+               \cup (IF \E i \in DOMAIN aggs : Prone12c(aggs[i].a) THEN {"S12c"} ELSE {})
+      BySize(k) == SetToSeq({x \in SUBSET prone : Cardinality(x) = k})
+      segs == BySize(1) \o BySize(2) \o BySize(3)
       modes == << [form |-> "exact", d |-> {}] >>
-               \o (IF pa THEN << [form |-> "seg", d |-> {"S12a"}] >> ELSE <<>>)
-               \o (IF pb THEN << [form |-> "seg", d |-> {"S12b"}] >> ELSE <<>>)
-               \o (IF pa /\ pb THEN << [form |-> "seg", d |-> {"S12a", "S12b"}] >> ELSE <<>>)
+               \o [i \in DOMAIN segs |-> [form |-> "seg", d |-> segs[i]]]
                \o << [form |-> "loose", d |-> {}] >>
       nm == Len(ms)  nt == Len(ts)
   IN [i \in 1..(nm * nt * Len(modes)) |->
@@ -128,6 +135,7 @@ Why(dv) ==
   CASE dv = "S07a" -> "aggregated over the as-built matched set (only documents containing a scored term are candidates)"
     [] dv = "S12a" -> "min_doc_count / max_doc_count / size applied per segment before the merge"
     [] dv = "S12b" -> "top_hits `from` skipped by every segment collector and again by every merge"
+    [] dv = "S12c" -> "range buckets with equal keys collide when the segment results are merged"
     [] dv = "S13a" -> "aggregations on a cursor page cover only the documents after the cursor"
     [] dv = "S30a" -> "composite histogram source over an i64 field produces no buckets"
     [] OTHER -> dv
@@ -184,6 +192,7 @@ CheckPagingAggs(e) ==
         paged == {i \in DOMAIN vs : vs[i].obs.ok /\ vs[i].haspos}
         distinct == {vs[i].obs.aggs : i \in plain}
         Label(o) == vs[CHOOSE i \in plain : vs[i].obs.aggs = o].label
+        devsOf == [o \in distinct |-> DevsOf(Cands(Mi, Mb, e.aggs), e.nseg, o)]
         PageDevs(v) ==
           LET whole == DevsOf(Cands(Mi, Mb, e.aggs), e.nseg, v.obs.aggs) IN
           IF "FAIL" \notin whole THEN whole
@@ -192,8 +201,10 @@ CheckPagingAggs(e) ==
         sug == vs[1].obs.suggest
     IN /\ \A i \in bad : Say("FAIL", e.prop, e, "a variant of the request returned an error", vs[i].label)
        /\ \A o \in distinct :
-            Report(e, DevsOf(Cands(Mi, Mb, e.aggs), e.nseg, o),
+            Report(e, devsOf[o],
                    "aggregations differ from the reference computation over the matched documents", Label(o))
+       /\ Cardinality({StripSubs(o) : o \in {x \in distinct : devsOf[x] = {}}}) > 1 =>
+            Say("FAIL", e.prop, e, "aggregations differ between variants of one request", "")
        /\ \A i \in paged :
             Report(e, PageDevs(vs[i]),
                    "aggregations of a cursor page differ from the reference computation over the matched documents", vs[i].label)
